@@ -3,6 +3,7 @@ package main
 import (
 	"fmt"
 	"os"
+	"strings"
 
 	"cuelang.org/go/internal/verifharness/common"
 )
@@ -20,6 +21,29 @@ func main() {
 		data, _ := os.ReadFile(a["--file"])
 		fmt.Println(evalProgram(string(data), "x"))
 		return
+	case "pairs":
+		// corpus of named equivalent pairs: prints name, canonical A, canonical B
+		data, _ := os.ReadFile(a["--file"])
+		for _, line := range strings.Split(string(data), "\n") {
+			line = strings.TrimSpace(line)
+			if line == "" || strings.HasPrefix(line, "# ") {
+				continue
+			}
+			f := strings.Split(line, "|")
+			if len(f) != 4 {
+				continue
+			}
+			defs := strings.ReplaceAll(strings.TrimSpace(f[1]), ";", "\n")
+			ea, eb := strings.TrimSpace(f[2]), strings.TrimSpace(f[3])
+			ca := evalProgram(defs+"\nx: "+ea+"\n", "("+ea+")")
+			cb := evalProgram(defs+"\nx: "+eb+"\n", "("+eb+")")
+			fmt.Printf("%s\t%s\t%s\n", strings.TrimSpace(f[0]), ca, cb)
+		}
+		return
+	case "c01":
+		runC01(r, a, out)
+	case "c05":
+		runC05(r, a, out)
 	case "", "eval":
 		g := NewGen(r, GenCfg{MaxDepth: common.Atoi(a["--depth"], 3), Closedness: a["--closed"] != "0", Bounds: true})
 		src, _ := os.Create(a["--out"] + "/src.txt")
